@@ -756,6 +756,18 @@ func (env *Env) call(x *ECall) SVal {
 	case "runes":
 		v := env.value(env.eval(x.Args[0]))
 		return SVal{T: env.a.runeCount(v.T), Typ: tInt, Sort: "Int"}
+	case "perm", "perminv":
+		// perm(i): the old index of the element that the most recent sort call of this function moved to index i
+		// (perminv: the new index of the element that was at old index j)
+		arr := env.a.top.lastPerm
+		if x.Fn == "perminv" {
+			arr = env.a.top.lastPermInv
+		}
+		if arr == "" {
+			fail("%s() without a preceding sort call", x.Fn)
+		}
+		i := env.value(env.eval(x.Args[0]))
+		return SVal{T: sel(arr, i.T), Typ: tInt, Sort: "Int"}
 	case "neginf":
 		// neginf(): math.Inf(-1) as the program sees it (an uninterpreted real below every finite value only by axiom)
 		return SVal{T: app(d.Fun("math_Inf", []string{"Int"}, "Real"), "(- 1)"), Typ: types.Typ[types.Float64], Sort: "Real"}
@@ -918,6 +930,12 @@ func (env *Env) call(x *ECall) SVal {
 			fail("typeIs(e, \"pkg.Type\")")
 		}
 		t, _ := env.resolveType(s.V)
+		if t == nil {
+			t = env.parseType(s.V)
+		}
+		if t == nil {
+			fail("typeIs: cannot resolve type %q", s.V)
+		}
 		return b(eq(app("itag", v.T), intLit(int64(d.TypeTag(t)))))
 	case "dyn":
 		// dyn(e, "T"): the dynamic value of interface e as type T
@@ -927,6 +945,12 @@ func (env *Env) call(x *ECall) SVal {
 			fail("dyn(e, \"pkg.Type\")")
 		}
 		t, _ := env.resolveType(s.V)
+		if t == nil {
+			t = env.parseType(s.V)
+		}
+		if t == nil {
+			fail("dyn: cannot resolve type %q", s.V)
+		}
 		if d.SortOf(t) == "Ref" {
 			return env.sv(app("iptr", v.T), t)
 		}
